@@ -43,6 +43,8 @@ THEOREMS = [
     "OllamaVerif.C09.failed_pull_keeps_links",
     "OllamaVerif.C09.history_links_only_by_successful_pull",
     "OllamaVerif.C09.handlePull_links_only_by_successful_pull",
+    "OllamaVerif.C09.handlePull_exits",
+    "OllamaVerif.C09.handlePull_success_verified",
     "OllamaVerif.C09.push_manifest_last",
     "OllamaVerif.C09.legacy_push_manifest_last",
     "OllamaVerif.C09.F10a_holey_file_trusted_on_retry",
@@ -106,7 +108,7 @@ def regenerate(ctx):
     ctx.coverage["retry_table"] = ", ".join(rows)
 
 
-def l1_inputs(ctx, outdir):
+def l1_inputs(ctx, outdir, normalize=None):
     """Turn L1 disagreements into concrete, replayable inputs: the driver writes the replay header of every
     case to tags.txt (line-aligned with ops.txt); a case on which model and code differ becomes a violation
     whose `case` is `<header> :: <op line>` (honoured by --replay)."""
@@ -118,7 +120,10 @@ def l1_inputs(ctx, outdir):
     with open(paths[0], errors="replace") as fo, open(paths[1], errors="replace") as fi, \
             open(paths[2], errors="replace") as fm, open(paths[3], errors="replace") as ft:
         for op, a, b, tag in zip(fo, fi, fm, ft):
-            if a.rstrip("\n") != b.rstrip("\n"):
+            a, b = a.rstrip("\n"), b.rstrip("\n")
+            if normalize:
+                a, b = normalize(a), normalize(b)
+            if a != b:
                 n += 1
                 if n <= 5:
                     ctx.violation("model-code-disagreement", tag.strip() + " :: " + op.strip(),
@@ -135,7 +140,7 @@ def run(ctx):
         path = ctx.replay_line_file()
         env["VERIF_REPLAY"] = path
         head = open(path).read()
-        replay_kind = "legacy" if "kind=legacy" in head else "client"
+        replay_kind = "legacy" if "kind=legacy" in head else ("handler" if "kind=handler" in head else "client")
     if replay_kind in (None, "client"):
         rc, out, outdir = ctx.go_test("./server/internal/client/ollama/", OVERLAY, "^TestVerifC09$", env=env)
         if rc != 0:
@@ -153,6 +158,19 @@ def run(ctx):
         ctx.read_stats(outdir)
         ctx.l1(outdir, label="legacy")
         l1_inputs(ctx, outdir)
+        ctx.classify(ctx.l2(outdir))
+    if replay_kind in (None, "handler"):
+        import re
+        env3 = dict(env)
+        env3["VERIF_N"] = ctx.scale(500, 6000)
+        rc, out, outdir = ctx.go_test("./server/internal/registry/", OVERLAY_RETRY, "^TestVerifC09Handler$", env=env3)
+        if rc != 0:
+            ctx.violation("driver-failed", "", out[-1500:], no_input=True)
+        ctx.read_stats(outdir)
+        # the HTTP response does not carry the error class: compare success / attempts / link
+        strip = lambda s: re.sub(r"^res=\S+ ", "", s)
+        ctx.l1(outdir, label="handler", normalize=strip)
+        l1_inputs(ctx, outdir, normalize=strip)
         ctx.classify(ctx.l2(outdir))
     if ctx.thorough:
         ctx.leanchecker(MODULES)
